@@ -4,6 +4,7 @@ Everything here reads the *source text* of the repository (ast.parse); no
 repository module is ever imported or executed.
 """
 import ast
+import copy
 import hashlib
 import json
 import os
@@ -92,6 +93,8 @@ class Module:
         self.consts = {}  # module level NAME = expr (last assignment)
         self.imports = {}  # local name -> (module, name)
         self.renamed = {}
+        self.normalised = {}
+        self.ref_tree = None
         self._undo_local_renames()
         self._index()
 
@@ -108,9 +111,15 @@ class Module:
             return
         try:
             with open(ref_path, 'rb') as fh:
-                ref_tree = ast.parse(fh.read().decode('utf-8'))
+                ref_raw = fh.read()
+            ref_tree = ast.parse(ref_raw.decode('utf-8'))
         except SyntaxError:
             return
+        if hashlib.sha256(ref_raw).hexdigest() == self.digest:
+            return
+        from .normalise import normalise
+        self.normalised = normalise(ref_tree, self.tree)
+        self.ref_tree = ref_tree
         ref_funcs = dict(_top_functions(ref_tree))
         for qual, node in _top_functions(self.tree):
             ref = ref_funcs.get(qual)
@@ -119,6 +128,21 @@ class Module:
             script = alpha_map(ref, node)
             if script:
                 apply_alignment(node, script)
+                pren = {c: r for c, r in script['rename'].items()
+                        if r in _params_of(ref)}
+                if pren:
+                    # keyword arguments at the call sites follow the
+                    # parameter names
+                    fname = qual.split('.')[-1]
+                    for n in ast.walk(self.tree):
+                        if isinstance(n, ast.Call) and (
+                                (isinstance(n.func, ast.Attribute)
+                                 and n.func.attr == fname) or
+                                (isinstance(n.func, ast.Name)
+                                 and n.func.id == fname)):
+                            for kw in n.keywords:
+                                if kw.arg in pren:
+                                    kw.arg = pren[kw.arg]
                 self.renamed[qual] = {
                     'rename': script['rename'],
                     'swapped_operands': len(script['swap']),
@@ -223,6 +247,18 @@ def _locals_of(fn):
     return out - own - glob
 
 
+def _params_of(fn):
+    if not isinstance(fn, (ast.FunctionDef, ast.AsyncFunctionDef)):
+        return set()
+    a = fn.args
+    own = {x.arg for x in a.posonlyargs + a.args + a.kwonlyargs}
+    if a.vararg:
+        own.add(a.vararg.arg)
+    if a.kwarg:
+        own.add(a.kwarg.arg)
+    return own
+
+
 def _inert(st, fn_names_used):
     """A statement whose presence cannot change what the function computes:
     pass, a bare constant, a print(...) call, an assignment of a constant /
@@ -257,8 +293,8 @@ def alpha_map(ref, cur):
     inserted inert statements.  Returns an edit script
     {'rename': {...}, 'swap': [BinOp nodes of cur], 'drop': [(list, stmt)]}
     or None if the functions differ in any other way (or not at all)."""
-    rlocals = _locals_of(ref)
-    clocals = _locals_of(cur)
+    rlocals = _locals_of(ref) | (_params_of(ref) - {'self', 'cls'})
+    clocals = _locals_of(cur) | (_params_of(cur) - {'self', 'cls'})
     fwd, back = {}, {}
     swaps, drops = [], []
     mirrors, inverts = [], []
@@ -503,6 +539,49 @@ class Program:
         for rel in rels:
             self.modules[rel] = Module(repo, rel)
         self.consulted = set()
+        self._substitute_equivalent()
+
+    def _substitute_equivalent(self):
+        """Normalisation aid (canon.py): a function of today's tree that is
+        provably the same function as its reference version -- equal
+        decision trees over expanded expressions -- is analysed in its
+        reference shape."""
+        changed = [m for m in self.modules.values()
+                   if m.ref_tree is not None]
+        if not changed:
+            return
+        from .canon import Oracle, equivalent
+        trees = [m.tree for m in self.modules.values()] + [
+            m.ref_tree for m in changed]
+        oracle = Oracle(trees)
+        for m in changed:
+            ref_funcs = dict(_top_functions(m.ref_tree))
+            redo = False
+            for qual, node in _top_functions(m.tree):
+                ref = ref_funcs.get(qual)
+                if ref is None or isinstance(ref, ast.If):
+                    continue
+                if ast.dump(ref) == ast.dump(node):
+                    continue
+                if equivalent(ref, node, oracle):
+                    new = copy.deepcopy(ref)
+                    # positions keep the reference's relative order
+                    off = node.lineno - ref.lineno
+                    for n in ast.walk(new):
+                        if hasattr(n, 'lineno'):
+                            n.lineno = n.lineno + off
+                            if getattr(n, 'end_lineno', None) is not None:
+                                n.end_lineno = n.end_lineno + off
+                    node.args = new.args
+                    node.body = new.body
+                    node.decorator_list = new.decorator_list
+                    m.normalised.setdefault(
+                        'equivalent_to_reference', []).append(qual)
+                    redo = True
+            if redo:
+                m.funcs.clear()
+                m.classes.clear()
+                m._index()
 
     def module(self, rel):
         if rel not in self.modules:
